@@ -18,6 +18,6 @@ Separate Extraction
   Conc.crun Conc.cinit Conc.serial_ok Conc.rec_ok Conc.ver_of
   Batch.run_batch Batch.bstate0 Batch.res_get Batch.committed_of Batch.cnt_get
   Node.put Node.del Node.size Node.size_less_than Node.split_index Node.split Node.write Node.read Node.split_ok Node.keys_sorted Node.keys_of Node.big_enough Node.pages_needed Node.bucket_write Node.bucket_header_value
-  Tree.commit_tree Tree.commit_bucket Tree.commit_parent Tree.flatten Tree.depth Tree.no_empty Tree.page_runs
+  Tree.commit_tree Tree.commit_bucket Tree.commit_parent Tree.commit_parent_bucket Tree.flatten Tree.depth Tree.no_empty Tree.page_runs
   Layout.dec_page Check.check_file Check.cli_exit
   Pager.pstep Pager.pg_open Pager.scan_free Pager.commit_writes Pager.pend_pages Pager.minus Pager.e_tx Pager.e_pg.
